@@ -104,8 +104,8 @@ SEM_FUNCS = [
 ]
 
 
-def sem_cfg(fm, pre, k=0):
-    return fm | (pre << 2) | (k << 4)
+def sem_cfg(fm, pre, k=0, steal=0):
+    return fm | (pre << 2) | (k << 4) | (steal << 6)
 
 
 def sem_prop(pid, pbit, modes, step_names, extra_quick=(), extra_thorough=()):
@@ -151,8 +151,9 @@ PROPS = {
     "C05": sem_prop("C05", 5, [("x", 2)], ["step_c05", "step_c05_wide"]),
     "C06": sem_prop("C06", 6, [("u", 0), ("f", 1)],
                     ["step_c06_poll", "step_c06_drop", "step_c06_release", "step_c06_try"],
-                    extra_quick=[H(SEM, "hist_c06_u_p1_n5", "hold", replay=("sem_hist_noop", sem_cfg(0, 1)), mask=P(6), est_s=500, est_gb=3.5, timeout=900,
-                                   bounds="E-HIST unfair: 5 operations, the first fixed to 'poll future #0' (reaches waker replacement on a re-queued future)"),H(SEM, "witness_cancel_head_p2_n4", "witness", replay=("sem_hist_noop", sem_cfg(2, 2)),
+                    extra_quick=[H(SEM, "hist_c06_u_p1s_n5", "hold", replay=("sem_hist_noop", sem_cfg(0, 1, 0, 1)), mask=P(6), est_s=300, est_gb=3.5, timeout=900,
+                                   bounds="E-HIST unfair, 'steal' partition: poll future #0, release(a), try_acquire(b) with symbolic amounts, then 2 arbitrary "
+                                          "operations (reaches a notified future that re-queues, incl. with another waker)"),H(SEM, "witness_cancel_head_p2_n4", "witness", replay=("sem_hist_noop", sem_cfg(2, 2)),
                                    mask=PALL, witness_bit=2, est_s=120,
                                    bounds="witness twin: must reach 'pending head cancelled with a waiter behind'")]),
     "C07": sem_prop("C07", 7, [("f", 1)], ["step_c07"]),
@@ -677,7 +678,7 @@ def decode_sem(cfg, script):
     out = []
     it = iter(script)
     nx = lambda: next(it, 0)
-    fm, pre = cfg & 3, (cfg >> 2) & 3
+    fm, pre, steal = cfg & 3, (cfg >> 2) & 3, (cfg >> 6) & 1
     fair = bool(nx()) if fm == 2 else (fm == 1)
     out.append("new(fair=%s, permits=%d)" % (fair, nx()))
     q = [nx(), nx(), nx()]
@@ -688,6 +689,10 @@ def decode_sem(cfg, script):
         step += 1
         if step <= pre:
             op = (step - 1) * 2
+        elif steal and step == pre + 1:
+            op = 17
+        elif steal and step == pre + 2:
+            op = 18
         else:
             op = next(it, None)
             if op is None:
